@@ -12,7 +12,12 @@ import (
 	"verif/internal/ref9p"
 )
 
-func TestMain(m *testing.M) { hx.Main(m, "C02") }
+func TestMain(m *testing.M) {
+	onLenient = func(what string, dotu bool) {
+		hx.Label(fmt.Sprintf("accepted though not strictly valid: %s dotu=%v", what, dotu))
+	}
+	hx.Main(m, "C02")
+}
 
 func sampleOf(c *Case) interface{} {
 	s := *c
